@@ -209,6 +209,11 @@ const DTLS_HANDSHAKE_TIMEOUT: std::time::Duration = std::time::Duration::from_se
 /// 1464 under PPPoE (1492), and 1252 under the IPv6 minimum MTU (1280).
 pub const MAX_APP_DATA_RECORD_SIZE: usize = 1200;
 
+/// Largest handshake message accepted for reassembly from fragments. The reassembly
+/// buffer is sized from the (unauthenticated) total length of the first fragment, so
+/// it is bounded; certificate chains are far below this.
+const MAX_HANDSHAKE_MESSAGE_SIZE: usize = 1 << 16;
+
 pub struct DtlsTransport {
     inner: Arc<DtlsInner>,
     close_tx: Arc<tokio::sync::Notify>,
@@ -738,20 +743,51 @@ impl DtlsInner {
                     let (processing_msg, processing_raw) = if msg.total_length
                         != msg.fragment_length
                     {
-                        if ctx.incomplete_msg_seq != msg.message_seq || msg.fragment_offset == 0 {
-                            // New message or first fragment, reset buffer
+                        // Reassemble by fragment_offset (RFC 6347 §4.2.3): fragments may
+                        // arrive in any order, duplicated or overlapping. Appending bodies in
+                        // arrival order would splice a reordered or repeated fragment into the
+                        // message and fail the handshake on a merely reordering network.
+                        let total = msg.total_length as usize;
+                        let frag_start = msg.fragment_offset as usize;
+                        let frag_end = frag_start + msg.body.len();
+                        if total > MAX_HANDSHAKE_MESSAGE_SIZE || frag_end > total {
+                            debug!(
+                                "Ignoring handshake fragment outside its message: offset {} len {} total {}",
+                                frag_start,
+                                msg.body.len(),
+                                total
+                            );
+                            continue;
+                        }
+                        if ctx.incomplete_msg_seq != msg.message_seq
+                            || ctx.incomplete_handshake.len() != total
+                        {
+                            // First fragment seen of this message: fresh buffer of the full length
                             ctx.incomplete_handshake.clear();
+                            ctx.incomplete_handshake.resize(total, 0);
+                            ctx.incomplete_ranges.clear();
                             ctx.incomplete_msg_seq = msg.message_seq;
                         }
 
-                        ctx.incomplete_handshake.extend_from_slice(&msg.body[..]);
+                        ctx.incomplete_handshake[frag_start..frag_end].copy_from_slice(&msg.body[..]);
+                        ctx.incomplete_ranges.push((frag_start, frag_end));
                         #[cfg(rustrtc_verif)]
                         self.vhs(&msg, "frag", ctx);
 
-                        if ctx.incomplete_handshake.len() < msg.total_length as usize {
+                        // Complete once the fragments received so far cover [0, total)
+                        ctx.incomplete_ranges.sort_unstable();
+                        let mut covered = 0usize;
+                        for &(start, end) in &ctx.incomplete_ranges {
+                            if start > covered {
+                                break;
+                            }
+                            covered = covered.max(end);
+                        }
+                        if covered < total {
                             // Still incomplete, wait for more fragments
                             continue;
                         }
+                        ctx.incomplete_ranges.clear();
 
                         // Fully reassembled
                         let full_msg = HandshakeMessage {
@@ -2277,6 +2313,8 @@ struct HandshakeContext {
     post_hvr: bool,
     last_flight_records: Option<Vec<Vec<u8>>>,
     incomplete_handshake: BytesMut,
+    /// Byte ranges of `incomplete_handshake` filled by the fragments received so far.
+    incomplete_ranges: Vec<(usize, usize)>,
     incomplete_msg_seq: u16,
     local_secret: Option<EphemeralSecret>,
     local_public_key_bytes: Vec<u8>,
@@ -2309,6 +2347,7 @@ impl HandshakeContext {
             post_hvr: false,
             last_flight_records: None,
             incomplete_handshake: BytesMut::new(),
+            incomplete_ranges: Vec::new(),
             incomplete_msg_seq: 0,
             local_secret: Some(local_secret),
             local_public_key_bytes,
